@@ -86,6 +86,7 @@ def model_config(res):
     out = dict(res)
     out['init'] = unfl(res['init']); out['bounds'] = unfl(res['bounds']); out['auxdata'] = unfl(res['auxdata'])
     out.pop('paramsets', None)
+    out.pop('wf', None)
     return out
 
 
